@@ -1,1 +1,3 @@
-#[cfg(any(not(verif_select), verif_gf))] #[path = "/verif/harness/ntp_proto/gf_probe_server.rs"] pub(crate) mod gf;
+#[cfg(any(not(verif_select), verif_gf))]
+#[path = "/verif/harness/ntp_proto/gf_probe_server.rs"]
+pub(crate) mod gf;
